@@ -14,6 +14,10 @@ class AbstractDiscreteTimeOnlineInterpreter(AbstractOnlineInterpreter, DiscreteT
         self.resetVisitor = AbstractOnlineResetVisitor()
         return
 
+    def set_ast(self, ast):
+        super(AbstractDiscreteTimeOnlineInterpreter, self).set_ast(ast)
+        self.check_pastified_bounds()
+
     # timestamp - float
     # inputs - list of [var name, var value] pairs
     # Example:
